@@ -205,7 +205,7 @@ def run_property(prop, tier, only_unit=None):
             h = [h for h in r['_unit']['harnesses'] if h['name'] == r['harness']][0]
             b = h.get('unwind_thorough') if tier == 'thorough' and h.get('unwind_thorough') else h.get('unwind')
             bounded_units.append({'unit': r['unit'], 'harness': r['harness'], 'unwind': b,
-                                  'bound': h.get('bound_note', ''),
+                                  'bound': (h.get('bound_note_thorough') if tier == 'thorough' and h.get('bound_note_thorough') else h.get('bound_note', '')),
                                   'obligations': len([o for o in r['obligations'] if not is_internal(o)])})
     rc = 0
     printed = set()
